@@ -1,33 +1,60 @@
 (* C01 — executable model of the universe merge.
    Mirrors olad/plugin_api/Universe.cpp: MergeAll, HTPMergeSources, UpdateDependants,
-   PortDataChanged, SourceClientDataChanged, SetMergeMode, Add/Remove port / client;
-   DmxSource::IsSet/IsActive; BasicInputPort::DmxChanged; Client::DMXReceived/SourceData.
-   DmxBuffer is used through its value semantics (Set, Reset, HTPMerge), which C02 relates to the
-   copy-on-write implementation. *)
+   PortDataChanged, SourceClientDataChanged, SetMergeMode, AddPort/RemovePort (both kinds),
+   AddSourceClient/RemoveSourceClient, AddSinkClient/RemoveSinkClient;
+   include/olad/DmxSource.h: IsSet/IsActive/UpdateData; olad/plugin_api/Port.cpp:
+   BasicInputPort::DmxChanged/SetPriority and the priority selection; olad/plugin_api/Client.cpp:
+   DMXReceived/SourceData.
+   DmxBuffer is used through its value semantics (Set caps at 512, Reset, HTPMerge), which C02
+   relates to the copy-on-write implementation.  RDM, names and the export map are not modelled.
+   Time is N microseconds (a TimeStamp with tv_sec*10^6+tv_usec); 0 is the unset TimeStamp. *)
 From OlaBase Require Import Bytes.
 From C01 Require Import Gen.
 Local Open Scope N_scope.
 
-Record source := { s_data : list N; s_ts : N (* microseconds, 0 = never set *); s_prio : N }.
+(* DmxSource *)
+Record source := { s_data : list N; s_ts : N; s_prio : N }.
 Definition unset_source := {| s_data := []; s_ts := 0; s_prio := SOURCE_PRIORITY_MIN |}.
 
-(* a source id: input ports and clients live in disjoint id spaces *)
+(* a source id: input ports and clients live in disjoint id spaces (they are C++ pointers of
+   different classes; the harness maps index <-> object) *)
 Inductive sid := Port (i : N) | Client (i : N).
 Definition sid_eqb (a b : sid) : bool :=
   match a, b with Port x, Port y => x =? y | Client x, Client y => x =? y | _, _ => false end.
 
+(* BasicInputPort: m_dmx_source, m_priority, m_priority_mode, what InheritedPriority() returns and
+   whether SupportsPriorities() *)
+Record port := { p_src : source; p_static : N; p_inherit : bool; p_inherited : N; p_caps : bool }.
+Definition new_port : port :=
+  {| p_src := unset_source; p_static := SOURCE_PRIORITY_DEFAULT; p_inherit := false;
+     p_inherited := SOURCE_PRIORITY_DEFAULT; p_caps := false |}.
+(* the priority expression of BasicInputPort::DmxChanged *)
+Definition port_priority (p : port) : N :=
+  if p_caps p && p_inherit p then p_inherited p else p_static p.
+
 Record ust := {
-  u_ltp : bool;                       (* merge mode: true = LTP (the constructor's default) *)
-  u_buf : list N;                     (* m_buffer *)
-  u_prio : N;                         (* m_active_priority *)
-  u_srcs : list (sid * source);       (* m_input_ports (vector order) then m_source_clients *)
-  u_outs : list N;                    (* m_output_ports, vector order *)
-  u_sinks : list N }.                 (* m_sink_clients *)
+  u_ltp : bool;                (* m_merge_mode == MERGE_LTP (the constructor's default) *)
+  u_buf : list N;              (* m_buffer *)
+  u_prio : N;                  (* m_active_priority *)
+  u_inputs : list N;           (* m_input_ports, vector order *)
+  u_clients : list N;          (* m_source_clients: std::map keyed by pointer = ascending id *)
+  u_outs : list N;             (* m_output_ports, vector order *)
+  u_sinks : list N }.          (* m_sink_clients: std::set of pointers = ascending id *)
 
 Definition init_ust : ust :=
-  {| u_ltp := true; u_buf := []; u_prio := SOURCE_PRIORITY_MIN; u_srcs := []; u_outs := []; u_sinks := [] |}.
+  {| u_ltp := true; u_buf := []; u_prio := SOURCE_PRIORITY_MIN; u_inputs := []; u_clients := [];
+     u_outs := []; u_sinks := [] |}.
 
-(* DmxBuffer::HTPMerge on values: slot-wise max on the common prefix, the longer tail kept *)
+(* the universe plus the objects it points to *)
+Record world := { w_u : ust; w_ports : N -> port; w_csrc : N -> source (* Client::m_data_map[uni] *) }.
+Definition init_world : world :=
+  {| w_u := init_ust; w_ports := fun _ => new_port; w_csrc := fun _ => unset_source |}.
+
+(* DmxBuffer::Set(data, length): m_length = min(length, DMX_UNIVERSE_SIZE) *)
+Definition dmx_set (d : list N) : list N := take DMX_UNIVERSE_SIZE d.
+
+(* DmxBuffer::HTPMerge on values (both operands are DmxBuffers, i.e. at most 512 slots):
+   slot-wise max on the common prefix, the longer tail kept *)
 Fixpoint htp (a b : list N) : list N :=
   match a, b with
   | [], _ => b
@@ -35,11 +62,11 @@ Fixpoint htp (a b : list N) : list N :=
   | x :: a', y :: b' => N.max x y :: htp a' b'
   end.
 
-(* source.IsSet() && source.IsActive(now) && source.Data().Size() *)
+(* !( !source.IsSet() || !source.IsActive(now) || !source.Data().Size() ) *)
 Definition live (now : N) (s : source) : bool :=
   negb (s_ts s =? 0) && (now <? s_ts s + TIMEOUT_US) && negb (len (s_data s) =? 0).
 
-(* the two scanning loops of MergeAll (same body, ports first then clients) *)
+(* the body shared by the two scanning loops of MergeAll *)
 Record acc := { a_prio : N; a_act : list source; a_cia : bool }.
 Definition scan_one (now : N) (chg : sid) (a : acc) (e : sid * source) : acc :=
   let (i, s) := e in
@@ -50,100 +77,174 @@ Definition scan_one (now : N) (chg : sid) (a : acc) (e : sid * source) : acc :=
   then {| a_prio := a_prio a1; a_act := a_act a1 ++ [s];
           a_cia := if sid_eqb i chg then true else a_cia a1 |}
   else a1.
-Definition scan (now : N) (chg : sid) (l : list (sid * source)) : acc :=
-  fold_left (scan_one now chg) l {| a_prio := SOURCE_PRIORITY_MIN; a_act := []; a_cia := false |}.
+Definition acc0 := {| a_prio := SOURCE_PRIORITY_MIN; a_act := []; a_cia := false |}.
 
-Definition lookup (i : sid) (l : list (sid * source)) : source :=
-  match find (fun e => sid_eqb (fst e) i) l with Some e => snd e | None => unset_source end.
+(* what the two loops iterate over: ports in vector order, then clients in map order *)
+Definition port_sources (w : world) : list (sid * source) :=
+  map (fun i => (Port i, p_src (w_ports w i))) (u_inputs (w_u w)).
+Definition client_sources (w : world) : list (sid * source) :=
+  map (fun c => (Client c, w_csrc w c)) (u_clients (w_u w)).
+Definition scan (now : N) (chg : sid) (w : world) : acc :=
+  fold_left (scan_one now chg) (client_sources w) (fold_left (scan_one now chg) (port_sources w) acc0).
 
-(* Universe::MergeAll: returns the new state and whether the data changed *)
-Definition merge_all (now : N) (chg : sid) (u : ust) : ust * bool :=
-  let a := scan now chg (u_srcs u) in
-  let u1 := {| u_ltp := u_ltp u; u_buf := u_buf u; u_prio := a_prio a; u_srcs := u_srcs u;
-               u_outs := u_outs u; u_sinks := u_sinks u |} in
-  let setbuf b := {| u_ltp := u_ltp u; u_buf := b; u_prio := a_prio a; u_srcs := u_srcs u;
-                     u_outs := u_outs u; u_sinks := u_sinks u |} in
+(* port->SourceData() / client->SourceData(UniverseId()) of the changed source *)
+Definition changed_source (chg : sid) (w : world) : source :=
+  match chg with Port i => p_src (w_ports w i) | Client c => w_csrc w c end.
+
+Definition set_merge (u : ust) (prio : N) (buf : list N) : ust :=
+  {| u_ltp := u_ltp u; u_buf := buf; u_prio := prio; u_inputs := u_inputs u;
+     u_clients := u_clients u; u_outs := u_outs u; u_sinks := u_sinks u |}.
+
+(* Universe::HTPMergeSources: m_buffer.Reset(); for each source: m_buffer.HTPMerge(data) *)
+Definition htp_merge_sources (l : list source) : list N := fold_left htp (map s_data l) [].
+
+(* Universe::MergeAll: the new universe state and the returned "data changed" flag.
+   m_active_priority is overwritten on every path, also the ones returning false. *)
+Definition merge_all (now : N) (chg : sid) (w : world) : ust * bool :=
+  let u := w_u w in
+  let a := scan now chg w in
   match a_act a with
-  | [] => (u1, false)
+  | [] => (set_merge u (a_prio a) (u_buf u), false)
   | s0 :: rest =>
-    if negb (a_cia a) then (u1, false) else
+    if negb (a_cia a) then (set_merge u (a_prio a) (u_buf u), false) else
     match rest with
-    | [] => (setbuf (s_data s0), true)
+    | [] => (set_merge u (a_prio a) (s_data s0), true)
     | _ :: _ =>
       if u_ltp u then
-        let cs := lookup chg (u_srcs u) in
-        if existsb (fun s => s_ts cs <? s_ts s) (a_act a) then (u1, false)
-        else (setbuf (s_data cs), true)
-      else (setbuf (fold_left htp (map s_data (a_act a)) []), true)
+        let cs := changed_source chg w in
+        if existsb (fun s => s_ts cs <? s_ts s) (a_act a)
+        then (set_merge u (a_prio a) (u_buf u), false)
+        else (set_merge u (a_prio a) (s_data cs), true)
+      else (set_merge u (a_prio a) (htp_merge_sources (a_act a)), true)
     end
   end.
 
 Inductive event :=
-| WriteDMX (port : N) (data : list N) (prio : N)
-| SendDMX (client : N) (data : list N) (prio : N).
+| WriteDMX (port : N) (data : list N) (prio : N)      (* OutputPort::WriteDMX(buffer, priority) *)
+| SendDMX (client : N) (data : list N) (prio : N).    (* Client::SendDMX(universe, priority, buffer) *)
 
 (* Universe::UpdateDependants *)
 Definition fanout (u : ust) : list event :=
   map (fun p => WriteDMX p (u_buf u) (u_prio u)) (u_outs u) ++
   map (fun c => SendDMX c (u_buf u) (u_prio u)) (u_sinks u).
 
-Definition set_src (i : sid) (s : source) (l : list (sid * source)) : list (sid * source) :=
-  map (fun e => if sid_eqb (fst e) i then (i, s) else e) l.
-Definition has_src (i : sid) (l : list (sid * source)) : bool := existsb (fun e => sid_eqb (fst e) i) l.
-Definition with_srcs (u : ust) (l : list (sid * source)) : ust :=
-  {| u_ltp := u_ltp u; u_buf := u_buf u; u_prio := u_prio u; u_srcs := l; u_outs := u_outs u; u_sinks := u_sinks u |}.
+Definition with_u (w : world) (u : ust) : world :=
+  {| w_u := u; w_ports := w_ports w; w_csrc := w_csrc w |}.
+
+(* "if (MergeAll(port, client)) UpdateDependants();" *)
+Definition data_changed (chg : sid) (now : N) (w : world) : world * list event :=
+  let (u2, changed) := merge_all now chg w in
+  (with_u w u2, if changed then fanout u2 else []).
 
 Inductive op :=
-| PortData (i : N) (data : list N) (prio ts now : N)   (* BasicInputPort::DmxChanged on a patched port *)
-| ClientData (i : N) (data : list N) (prio ts now : N) (* Client::DMXReceived + SourceClientDataChanged *)
+| PortData (i : N) (data : list N) (ts now : N)   (* port buffer := data; BasicInputPort::DmxChanged
+                                                     with WakeUpTime()=ts, universe clock = now *)
+| PortChanged (i : N) (now : N)                    (* Universe::PortDataChanged(port) alone *)
+| ClientData (c : N) (data : list N) (prio ts now : N)
+                                                   (* Client::DMXReceived(DmxSource(data,ts,prio));
+                                                      Universe::SourceClientDataChanged(client) *)
+| ClientChanged (c : N) (now : N)                  (* SourceClientDataChanged(client) alone *)
 | SetMode (ltp : bool)
-| AddInput (i : N) | RemoveInput (i : N)
-| RemoveSourceClient (i : N)
+| AddInput (i : N) | RemoveInput (i : N)           (* AddPort/RemovePort + port->SetUniverse *)
+| AddSource (c : N) | RemoveSource (c : N)
 | AddOutput (i : N) | RemoveOutput (i : N)
-| AddSink (i : N) | RemoveSink (i : N).
+| AddSink (c : N) | RemoveSink (c : N)
+| SetPortPrio (i p : N)                            (* BasicInputPort::SetPriority *)
+| SetPortMode (i : N) (inherit : bool)             (* SetPriorityMode *)
+| SetInherited (i p : N)                           (* what InheritedPriority() returns *)
+| SetCaps (i : N) (b : bool).                      (* SupportsPriorities() *)
 
-Definition remove_n (i : N) (l : list N) := filter (fun x => negb (x =? i)) l.
+Definition mem (i : N) (l : list N) : bool := existsb (N.eqb i) l.
+(* vector: find + push_back / find + erase *)
+Definition vec_add (i : N) (l : list N) : list N := if mem i l then l else l ++ [i].
+Fixpoint vec_remove (i : N) (l : list N) : list N :=
+  match l with [] => [] | x :: r => if x =? i then r else x :: vec_remove i r end.
+(* std::set / std::map keyed by object address: insert keeps ascending order, no duplicates *)
+Fixpoint ord_add (c : N) (l : list N) : list N :=
+  match l with
+  | [] => [c]
+  | x :: r => if c <? x then c :: l else if c =? x then l else x :: ord_add c r
+  end.
+Definition ord_remove (c : N) (l : list N) : list N := filter (fun x => negb (x =? c)) l.
 
-(* input ports are kept before clients, as the two loops of MergeAll visit them *)
-Definition is_port (e : sid * source) := match fst e with Port _ => true | Client _ => false end.
-Definition add_input (i : N) (l : list (sid * source)) :=
-  filter is_port l ++ [(Port i, unset_source)] ++ filter (fun e => negb (is_port e)) l.
+Definition upd {A} (f : N -> A) (i : N) (v : A) : N -> A := fun j => if j =? i then v else f j.
 
-Definition step (u : ust) (o : op) : ust * list event :=
+Definition set_inputs u l := {| u_ltp := u_ltp u; u_buf := u_buf u; u_prio := u_prio u; u_inputs := l;
+  u_clients := u_clients u; u_outs := u_outs u; u_sinks := u_sinks u |}.
+Definition set_clients u l := {| u_ltp := u_ltp u; u_buf := u_buf u; u_prio := u_prio u;
+  u_inputs := u_inputs u; u_clients := l; u_outs := u_outs u; u_sinks := u_sinks u |}.
+Definition set_outs u l := {| u_ltp := u_ltp u; u_buf := u_buf u; u_prio := u_prio u;
+  u_inputs := u_inputs u; u_clients := u_clients u; u_outs := l; u_sinks := u_sinks u |}.
+Definition set_sinks u l := {| u_ltp := u_ltp u; u_buf := u_buf u; u_prio := u_prio u;
+  u_inputs := u_inputs u; u_clients := u_clients u; u_outs := u_outs u; u_sinks := l |}.
+Definition set_ltp u b := {| u_ltp := b; u_buf := u_buf u; u_prio := u_prio u;
+  u_inputs := u_inputs u; u_clients := u_clients u; u_outs := u_outs u; u_sinks := u_sinks u |}.
+Definition with_port (w : world) (i : N) (p : port) : world :=
+  {| w_u := w_u w; w_ports := upd (w_ports w) i p; w_csrc := w_csrc w |}.
+Definition set_psrc (p : port) (s : source) : port :=
+  {| p_src := s; p_static := p_static p; p_inherit := p_inherit p; p_inherited := p_inherited p;
+     p_caps := p_caps p |}.
+
+(* The state right before "if (MergeAll(..)) UpdateDependants()" is reached by an update call, with
+   the changed source and the universe clock reading; None when that point is not reached. *)
+Definition apply_update (w : world) (o : op) : option (sid * N * world) :=
   match o with
-  | PortData i data prio ts now =>
-    if negb (has_src (Port i) (u_srcs u)) then (u, []) else
-    let u1 := with_srcs u (set_src (Port i) {| s_data := data; s_ts := ts; s_prio := prio |} (u_srcs u)) in
-    let (u2, changed) := merge_all now (Port i) u1 in
-    (u2, if changed then fanout u2 else [])
-  | ClientData i data prio ts now =>
-    let s := {| s_data := data; s_ts := ts; s_prio := prio |} in
-    let l := if has_src (Client i) (u_srcs u) then set_src (Client i) s (u_srcs u)
-             else u_srcs u ++ [(Client i, s)] in
-    let (u2, changed) := merge_all now (Client i) (with_srcs u l) in
-    (u2, if changed then fanout u2 else [])
-  | SetMode ltp =>
-    ({| u_ltp := ltp; u_buf := u_buf u; u_prio := u_prio u; u_srcs := u_srcs u; u_outs := u_outs u;
-        u_sinks := u_sinks u |}, [])
-  | AddInput i =>
-    if has_src (Port i) (u_srcs u) then (u, []) else (with_srcs u (add_input i (u_srcs u)), [])
-  | RemoveInput i => (with_srcs u (filter (fun e => negb (sid_eqb (fst e) (Port i))) (u_srcs u)), [])
-  | RemoveSourceClient i =>
-    (with_srcs u (filter (fun e => negb (sid_eqb (fst e) (Client i))) (u_srcs u)), [])
-  | AddOutput i =>
-    if existsb (N.eqb i) (u_outs u) then (u, []) else
-    ({| u_ltp := u_ltp u; u_buf := u_buf u; u_prio := u_prio u; u_srcs := u_srcs u;
-        u_outs := u_outs u ++ [i]; u_sinks := u_sinks u |}, [])
-  | RemoveOutput i =>
-    ({| u_ltp := u_ltp u; u_buf := u_buf u; u_prio := u_prio u; u_srcs := u_srcs u;
-        u_outs := remove_n i (u_outs u); u_sinks := u_sinks u |}, [])
-  | AddSink i =>
-    if existsb (N.eqb i) (u_sinks u) then (u, []) else
-    ({| u_ltp := u_ltp u; u_buf := u_buf u; u_prio := u_prio u; u_srcs := u_srcs u;
-        u_outs := u_outs u; u_sinks := u_sinks u ++ [i] |}, [])
-  | RemoveSink i =>
-    ({| u_ltp := u_ltp u; u_buf := u_buf u; u_prio := u_prio u; u_srcs := u_srcs u;
-        u_outs := u_outs u; u_sinks := remove_n i (u_sinks u) |}, [])
+  | PortData i data ts now =>
+    (* DmxChanged: if (GetUniverse()) {...}; PortDataChanged: if (!ContainsPort(port)) return *)
+    if mem i (u_inputs (w_u w)) then
+      let p := w_ports w i in
+      let s := {| s_data := dmx_set data; s_ts := ts; s_prio := port_priority p |} in
+      Some (Port i, now, with_port w i (set_psrc p s))
+    else None
+  | PortChanged i now =>
+    if mem i (u_inputs (w_u w)) then Some (Port i, now, w) else None
+  | ClientData c data prio ts now =>
+    let s := {| s_data := dmx_set data; s_ts := ts; s_prio := prio |} in
+    Some (Client c, now,
+          {| w_u := set_clients (w_u w) (ord_add c (u_clients (w_u w)));
+             w_ports := w_ports w; w_csrc := upd (w_csrc w) c s |})
+  | ClientChanged c now =>
+    Some (Client c, now, with_u w (set_clients (w_u w) (ord_add c (u_clients (w_u w)))))
+  | _ => None
   end.
 
-Definition run (ops : list op) : ust := fold_left (fun u o => fst (step u o)) ops init_ust.
+(* every other call: no merge, no fan-out *)
+Definition admin_step (w : world) (o : op) : world :=
+  let u := w_u w in
+  match o with
+  | SetMode b => with_u w (set_ltp u b)
+  | AddInput i => with_u w (set_inputs u (vec_add i (u_inputs u)))
+  | RemoveInput i => with_u w (set_inputs u (vec_remove i (u_inputs u)))
+  | AddSource c => with_u w (set_clients u (ord_add c (u_clients u)))
+  | RemoveSource c => with_u w (set_clients u (ord_remove c (u_clients u)))
+  | AddOutput i => with_u w (set_outs u (vec_add i (u_outs u)))
+  | RemoveOutput i => with_u w (set_outs u (vec_remove i (u_outs u)))
+  | AddSink c => with_u w (set_sinks u (ord_add c (u_sinks u)))
+  | RemoveSink c => with_u w (set_sinks u (ord_remove c (u_sinks u)))
+  | SetPortPrio i p =>
+    if SOURCE_PRIORITY_MAX <? p then w else
+    let q := w_ports w i in
+    with_port w i {| p_src := p_src q; p_static := p; p_inherit := p_inherit q;
+                     p_inherited := p_inherited q; p_caps := p_caps q |}
+  | SetPortMode i b =>
+    let q := w_ports w i in
+    with_port w i {| p_src := p_src q; p_static := p_static q; p_inherit := b;
+                     p_inherited := p_inherited q; p_caps := p_caps q |}
+  | SetInherited i p =>
+    let q := w_ports w i in
+    with_port w i {| p_src := p_src q; p_static := p_static q; p_inherit := p_inherit q;
+                     p_inherited := p; p_caps := p_caps q |}
+  | SetCaps i b =>
+    let q := w_ports w i in
+    with_port w i {| p_src := p_src q; p_static := p_static q; p_inherit := p_inherit q;
+                     p_inherited := p_inherited q; p_caps := b |}
+  | _ => w
+  end.
+
+Definition step (w : world) (o : op) : world * list event :=
+  match apply_update w o with
+  | Some (chg, now, w1) => data_changed chg now w1
+  | None => (admin_step w o, [])
+  end.
+
+Definition run (ops : list op) : world := fold_left (fun w o => fst (step w o)) ops init_world.
